@@ -314,6 +314,32 @@ fn mesh(spec: &MeshSpec, solid: bool, queries: &[Query], cap_rel: f64, ang: f64,
             ensure!(idxs.contains(&i) == *e, "C02/mesh/indices_in_tol/membership", "point {i} in result: {}, expected {e}", idxs.contains(&i));
         }
     }
+    // history on the same object: it has answered queries; now it is moved in place, then a copy of the original is
+    // appended to it; after each change it must answer for its current geometry
+    {
+        let mut hm = m;
+        hm.transform(&iso);
+        let moved = crate::oracle::Soup { v: soup.v.iter().map(|p| iso * p).collect(), f: soup.f.clone() };
+        let qs: Vec<engeom::Point3> = pts.iter().map(|p| iso * p).collect();
+        if let Err(f) = mesh_answers_for("C02/mesh/after_transform", &hm, &moved, &qs, solid && bm.topo.closed) {
+            return Verdict::Fail(f);
+        }
+        cx.label("history_transform");
+        let other = bm.mesh(solid);
+        if hm.append(&other).is_ok() {
+            let n0 = moved.v.len() as u32;
+            let mut both = moved.clone();
+            both.v.extend(soup.v.iter().cloned());
+            both.f.extend(soup.f.iter().map(|t| [t[0] + n0, t[1] + n0, t[2] + n0]));
+            let mut qs2 = qs.clone();
+            qs2.extend(pts.iter().cloned());
+            // two overlapping copies are not one closed solid: interior acceptance is not modelled, skip interior hits
+            if let Err(f) = mesh_answers_for("C02/mesh/after_append", &hm, &both, &qs2, solid) {
+                return Verdict::Fail(f);
+            }
+            cx.label("history_append");
+        }
+    }
     if nt {
         cx.nontrivial();
     }
